@@ -161,6 +161,11 @@ func TestVerif_C08(t *testing.T) {
 				w.gens[req] = g
 				w.bySub[sub] = append(w.bySub[sub], g)
 				w.mu.Unlock()
+				for _, o := range gens {
+					if o.sub == sub {
+						g.prev = append(g.prev, o)
+					}
+				}
 				gens = append(gens, g)
 				g.reqCall = vk.Tick()
 				if !cl.s.Put(req) {
@@ -205,24 +210,44 @@ func TestVerif_C08(t *testing.T) {
 					cl.barrier(fmt.Sprintf("barrier2-%d", q))
 				}
 				// judge this generation now (receipts since reqCall for this sub id)
-				var mine []rRecv
-				for _, x := range cl.snapshot() {
-					if x.at < g.reqCall {
-						continue
-					}
-					switch m := x.msg.(type) {
-					case *mocrelay.ServerEventMsg:
-						if m.SubscriptionID == sub {
-							mine = append(mine, x)
+				collect := func() []rRecv {
+					var mine []rRecv
+					for _, x := range cl.snapshot() {
+						if x.at < g.reqCall {
+							continue
 						}
-					case *mocrelay.ServerEOSEMsg:
-						if m.SubscriptionID == sub {
-							mine = append(mine, x)
+						switch m := x.msg.(type) {
+						case *mocrelay.ServerEventMsg:
+							if m.SubscriptionID == sub {
+								mine = append(mine, x)
+							}
+						case *mocrelay.ServerEOSEMsg:
+							if m.SubscriptionID == sub {
+								mine = append(mine, x)
+							}
 						}
 					}
+					return mine
+				}
+				// The COUNT barrier bounds what is in flight only if replies of different kinds
+				// leave in one order, which no statement fixes. Something that is due but absent
+				// is therefore waited for (the wait ends when it arrives) before it is called
+				// missing; once three violations are recorded the wait is cut short.
+				mine := collect()
+				for grace := time.Now().Add(vk.WaitBound / 2); ; {
+					dry := ""
+					c08Judge(func(string, int64) {}, g, mine, nch, func(sig, _ string, _ *mGen) { dry = sig })
+					if (dry != "eose/missing" && dry != "post-eose/lost") || time.Now().After(grace) || rep.Violations() >= 3 {
+						break
+					}
+					select {
+					case <-cl.notify:
+					case <-time.After(time.Millisecond):
+					}
+					mine = collect()
 				}
 				rep.Eval(1)
-				sig, cls := c08Judge(rep, g, mine, nch, fail)
+				sig, cls := c08Judge(rep.Count, g, mine, nch, fail)
 				if sig != "" {
 					return
 				}
@@ -287,8 +312,22 @@ func TestVerif_C08(t *testing.T) {
 	rep.Require(rep.Counter("hook_hits:merge.send.out") > 100, "verifPoint merge.send.out not reached")
 }
 
+func c08EmittedEarlier(g *mGen, id string) bool {
+	for _, o := range g.prev {
+		o.mu.Lock()
+		for _, e := range o.emits {
+			if m, is := e.msg.(*mocrelay.ServerEventMsg); is && m.Event.ID == id {
+				o.mu.Unlock()
+				return true
+			}
+		}
+		o.mu.Unlock()
+	}
+	return false
+}
+
 // c08Judge checks one generation; returns a violation signature ("" if fine) and a class key.
-func c08Judge(rep *vk.Report, g *mGen, mine []rRecv, nch int, fail func(sig, why string, g *mGen)) (string, string) {
+func c08Judge(count func(string, int64), g *mGen, mine []rRecv, nch int, fail func(sig, why string, g *mGen)) (string, string) {
 	g.mu.Lock()
 	emits := append([]mEmit{}, g.emits...)
 	closeRecv := append([]int64{}, g.closeRecv...)
@@ -343,14 +382,14 @@ func c08Judge(rep *vk.Report, g *mGen, mine []rRecv, nch int, fail func(sig, why
 	switch {
 	case g.refused:
 		// a child that refused the REQ never sends its EOSE: no merged EOSE is ever due
-		rep.Count("eose_must_not_a_child_refused", 1)
+		count("eose_must_not_a_child_refused", 1)
 		cls += "/child-refused"
 		if nE != 0 {
 			fail("eose/early", fmt.Sprintf("the client received EOSE for %q although a child answered the REQ with CLOSED and never sent an EOSE", g.sub), g)
 			return "x", cls
 		}
 	case g.closeCall == 0:
-		rep.Count("eose_must", 1)
+		count("eose_must", 1)
 		cls += "/noclose"
 		if !allEOSE {
 			fail("harness/child-did-not-finish", "a child did not emit its EOSE although nothing was closed", g)
@@ -361,14 +400,14 @@ func c08Judge(rep *vk.Report, g *mGen, mine []rRecv, nch int, fail func(sig, why
 			return "x", cls
 		}
 	case !allEOSE || (minClose != 0 && minClose < maxCall):
-		rep.Count("eose_must_not", 1)
+		count("eose_must_not", 1)
 		cls += "/closed-before-last-eose"
 		if nE != 0 {
 			fail("eose/after-close", fmt.Sprintf("subscription %q was closed (a child had received the CLOSE at t=%d, before the last child EOSE was sent at t=%d) but the client still received an EOSE", g.sub, minClose, maxCall), g)
 			return "x", cls
 		}
 	default:
-		rep.Count("eose_may", 1)
+		count("eose_may", 1)
 		cls += "/close-raced"
 	}
 	// events
@@ -391,6 +430,12 @@ func c08Judge(rep *vk.Report, g *mGen, mine []rRecv, nch int, fail func(sig, why
 			continue
 		}
 		es := emittedBy[m.Event.ID]
+		if len(es) == 0 && c08EmittedEarlier(g, m.Event.ID) {
+			// a straggler of an earlier REQ with this subscription id (something a child emitted
+			// after its EOSE or around the CLOSE): not part of this REQ's stream
+			count("stragglers_of_an_earlier_req_with_the_same_id", 1)
+			continue
+		}
 		if len(es) == 0 {
 			fail("event/not-emitted-by-any-child", fmt.Sprintf("the client received event %.8s labelled %q that no child emitted for this subscription", m.Event.ID, g.sub), g)
 			return "x", cls
@@ -436,13 +481,13 @@ func c08Judge(rep *vk.Report, g *mGen, mine []rRecv, nch int, fail func(sig, why
 			}
 			switch {
 			case m.Event.CreatedAt > last:
-				rep.Count("dropped:order", 1)
+				count("dropped:order", 1)
 			case offeredSeen[m.Event.ID]:
-				rep.Count("dropped:duplicate", 1)
+				count("dropped:duplicate", 1)
 			case !vk.RefMatchAny(g.filters, m.Event):
-				rep.Count("dropped:filter", 1)
+				count("dropped:filter", 1)
 			case limit != nil && cnt >= *limit:
-				rep.Count("dropped:limit", 1)
+				count("dropped:limit", 1)
 			default:
 				cnt++
 			}
@@ -469,7 +514,7 @@ func c08Judge(rep *vk.Report, g *mGen, mine []rRecv, nch int, fail func(sig, why
 					must = append(must, m.Event.ID)
 				}
 			}
-			rep.Count("post_eose_must_events", int64(len(must)))
+			count("post_eose_must_events", int64(len(must)))
 			// child c's marks in arrival order
 			pos := map[string]int{}
 			for k, x := range post {
